@@ -116,6 +116,16 @@ def _pspecs():
             exhaustive={"quick": True, "thorough": True},
             exhaustive_scope={"quick": "all single-write fault positions x {first run, run after edit, edit reverted} x {cli, build} x {viz off, on}", "thorough": "same + double faults"},
         ),
+        "C16": dict(
+            cases=pcases.cases_c16, theorems="Typegen.Theorems.C16",
+            trusted_base=[LEAN_TB, PROC_TB, "tg-extract (syn) re-reads is_generated_file's patterns, the names passed to write_typescript_file, CACHE_FILE_NAME, the dependency-graph names and the write-probe name from the source on every run; the C16 theorems are re-checked against them",
+                          "that every operation targets `<output dir>/<name>` (format!/join) is modelled by construction and validated by recursive before/after snapshots of the whole sandbox"],
+            assumptions=FS_ASSUME + ["OutputManager's per-run managed_files set only contains names the run itself wrote", "directories are created only along the output path"],
+            rule="output directory beside / nested inside / deep below / outside the project, relative and absolute, pre-populated with 14 foreign names close to the reserved ones "
+                 "(incl. a sub-directory with a types.ts) and 5 reserved decoys; sequences of generate / generate --visualize-deps / build-script runs / init (tauri.conf.json and custom file) / runs after all commands were removed; "
+                 "recursive hash+mtime snapshot of the whole sandbox before and after every action; non-trivial = all; distinct = (layout, path kind, mode, sequence, seed)",
+            exhaustive={"quick": False, "thorough": False},
+        ),
         "C08": dict(
             cases=pcases.cases_c08, theorems="Typegen.Theorems.C08",
             trusted_base=[LEAN_TB, PROC_TB, "tg-extract (syn) re-reads the *HashData field lists from src/build/generation_cache.rs on every run; the theorem C08_hashedFields_cover is re-checked against them"],
